@@ -267,10 +267,20 @@ def generate(seed, tier, opts):
             sched.append(sw)
         case["schedule"] = sched
         # a second point visited afterwards with the same (now exhausted) schedule object: warm start
-        case["then_point"] = _jsonable_point(_draw_point(model, rng, nprng)) if rng.random() < 0.3 else None
+        if rng.random() < 0.35:
+            from .c03_history import draw_point
+
+            case["then_point"] = _jsonable_point(draw_point(model, [_to_point(case["point"])], rng, nprng))
+        else:
+            case["then_point"] = None
     elif kind == "A":
         npts = rng.randint(2, 3)
-        case["points"] = [_jsonable_point(_draw_point(model, rng, nprng)) for _ in range(npts)]
+        from .c03_history import draw_point
+
+        pts = []
+        for _ in range(npts):
+            pts.append(draw_point(model, pts, rng, nprng))
+        case["points"] = [_jsonable_point(p) for p in pts]
         case["solver"] = [rng.choice(NL_KINDS), rng.choice(LIN_KINDS)] if rng.random() < 0.6 else ["nlbgs_aitken", "direct"]
         ops = [{"op": "set_point", "k": 0}]
         n_ops = rng.randint(3, 9)
